@@ -41,7 +41,7 @@ class EventLog(object):
     def __init__(self, keep=False):
         self._h = hashlib.sha256()
         self.n = 0
-        self.keep = keep
+        self.keep = keep or bool(os.environ.get('VERIF_LOG_DUMP'))
         self.entries = []
 
     def add(self, *entry):
@@ -53,6 +53,10 @@ class EventLog(object):
             self.entries.append(s)
 
     def digest(self):
+        dump = os.environ.get('VERIF_LOG_DUMP')
+        if dump and self.keep:
+            with open(dump, 'w') as f:
+                f.write('\n'.join(self.entries) + '\n')
         return self._h.hexdigest()
 
 
